@@ -1,6 +1,8 @@
 (* C05 - the statements of the property theorems and their proofs from ProofsZech / ProofsArr / ProofsField. *)
 From Coq Require Import ZArith Lia Ring List Bool.
-From C05 Require Import Model Checker ProofsZech ProofsArr ProofsField.
+From Coq Require Import Znumtheory.
+From C09 Require Model ProofsAlg.
+From C05 Require Import Model Checker ExtModel ProofsZech ProofsArr ProofsField ProofsExt.
 Import ListNotations.
 Local Open Scope Z_scope.
 
@@ -103,6 +105,18 @@ Proof.
   - pose proof (evalp_range p Hp l H0) as HR. rewrite H, Hkn in HR. subst q. lia.
   - rewrite <- H. apply digits_evalp; assumption.
 Qed.
+
+(* (3b) Extension<BaseField> over a prime field (ExtModel.v, written after extension.h): in any commutative ring of
+   characteristic p with a root x of the stored irreducible F, add/sub/neg/mul/axpy/axpyin/maxpy/maxpyin/axmy/axmyin are the
+   ring operations on the denotations; results canonical and of degree < deg F.  (F need not be irreducible for this.) *)
+Definition Ext_ops_stmt : Prop :=
+  forall (R : Type) (rO rI : R) (radd rmul rsub : R -> R -> R) (ropp : R -> R),
+    ring_theory rO rI radd rmul rsub ropp (@eq R) ->
+  forall p, prime p -> forall x : R, zr R rO rI radd rmul ropp p = rO ->
+  forall F, C09.ProofsAlg.canon p F -> 1 <= C09.Model.deg F -> sem R rO rI radd rmul ropp x F = rO ->
+    ext_ops_spec R rO rI radd rmul rsub ropp p x F.
+Lemma ext_ops : Ext_ops_stmt.
+Proof. exact ext_ops_ok. Qed.
 
 (* (4) array forms and dotprod: see ProofsArr (array_forms_spec, dotprod_spec, pre_decrement_loop_is_wrong). *)
 
